@@ -20,14 +20,15 @@ def with_static(t):
     return rg.rust(t).replace("&", "&'static ")
 
 
-def build_batch(types):
+def build_batch(types, external=()):
+    """external: names that are used but deliberately NOT defined in the project (foreign types, e.g. mapped ones)"""
     src = [rg.PRELUDE, "use tauri::{AppHandle, Emitter, ipc::Channel};\n\n",
            rg.struct_src("Named", [("a", "i32")]),
            rg.command_src("use_named", [("n", "Named")], "Named")]
     used = set()
     for (_, t) in types:
         used |= rg.named_in(t)
-    for nm in sorted(used - {"Named"}):
+    for nm in sorted(used - {"Named"} - set(external)):
         src.append(rg.struct_src(nm, [("a", "i32")]))
     for (i, t) in types:
         r = rg.rust(t)
